@@ -14,16 +14,23 @@ META = {
     "design_ref": "§6 C21, §5.6",
     "technique": "Lean 4 theorem by induction over the pattern (static check_type acceptance implies run-time coercion succeeds for "
     "every conforming value) over class tables regenerated from the running interpreter + differential correspondence",
-    "text": "Lean theorems about models of TypeParser.check_type and TypeParser.coerce: if check_type(S) passes for pattern T "
-    "(default flags, no super-to-sub casting) then for every value conforming to S, built from the standard container classes, "
-    "coercion by T succeeds or fails only through a fixed-length-tuple arity mismatch — under explicit decidable exclusions for the "
-    "known findings D25/D25b/D25c (witness theorems C21_witness_*).  The class-level base case is a `decide` over the issubclass "
-    "matrix and COERCIBLE/NOT_COERCIBLE tables dumped from the interpreter on every run.  Both models are tied to the code by "
-    "running check_type / matches_type on generated pairs (S, T) and, for accepted pairs, TypeParser(T)(v) on values generated "
-    "from S, against the Lean driver.",
+    "text": "Lean theorem C21_partial_seqPatterns about models of TypeParser.check_type and TypeParser.coerce: if check_type(S) "
+    "passes for a pattern T (default flags, no super-to-sub casting) then, for every value that conforms to S and is built from "
+    "scalars and list/tuple/set/frozenset/dict, coercion by T (with or without superclass_auto_cast) succeeds or fails only through a "
+    "fixed-length-tuple arity mismatch.  Proved by induction over T for the restricted pattern grammar `seqPatterns` (classes, Any, "
+    "unions, o[T] with o in {list, Sequence, MutableSequence, Iterable, Collection}, tuple[T1..Tn], tuple[T, ...]; sets, mappings "
+    "and MultiInputObj occur in T as bare classes) against ANY well-formed Any-free source type S, any depth, any value size, under "
+    "explicit decidable exclusions: str/bytes values inhabit only the classes str/bytes (D13 territory), and no position where a "
+    "constructor call raises or cannot be made (findings D25, D25b, D25c, D25d).  The class-level base case C21_tables (static "
+    "coercible(a, c) implies every concrete class below a is an instance of c or run-time coercible to c) is a `decide` over the "
+    "issubclass matrix and COERCIBLE/NOT_COERCIBLE tables dumped from the interpreter on every run.  Witness theorems "
+    "C21_witness_* / C21_full_statement_false show the full statement fails on the pinned tree.  Both models are tied to the code "
+    "by running check_type / matches_type on generated pairs (S, T) and, for accepted pairs, the field converter "
+    "make_converter(T)(v) on values generated from S, against the Lean driver; the harness also counts how many explored cases "
+    "lie under the theorem's hypotheses and checks the implementation behaves there as the theorem says.",
     "note": "Trusted: Lean kernel; hand-written models of check_type/expand_and_check and coerce (tie = differential + regenerated "
-    "tables); finite class universe (no fileformats/numpy/ty.Type/StateArray); run-time values of S are drawn from "
-    "list/tuple/set/frozenset/dict and scalar classes (a str as a Sequence[str] value is the D13 territory of C20).",
+    "tables); finite class universe (no fileformats/numpy/ty.Type/StateArray); the theorem does not cover generic set/dict/"
+    "MultiInputObj patterns in T (correspondence only) nor values of exotic classes (str as Sequence[str], range, dict views).",
     "rule": "case = (S, T, values of S); distinct by canonical JSON of (S, T); non-trivial = the static check passes and at least "
     "one of S, T is generic or a union",
     "assumptions": ["run-time values of an abstract source type are instances of list/tuple/set/frozenset/dict (not str/bytes/range/dict views)"],
@@ -150,7 +157,7 @@ def run_cases(ctx, cases):
                 ok = False
                 why = f"accepted statically, value {te.val_to_py(v)!r} -> {r[1]}"
                 if te.d13_match(c["T"], v):
-                    defect = "D13"  # a str inside the value is split by T (C20's finding) and the pieces do not fit
+                    defect = "D25e"  # a str inside the value is split by T (C20's finding) and the pieces do not fit
                 elif te.d25a_match(c["T"], v):
                     defect = "D25"
                 elif te.d25b_match(c["T"], v):
@@ -244,32 +251,18 @@ def gen_pair(rng):
     return {"S": S, "T": T, "stream": stream}
 
 
-WITNESSES = [
-    ("D25", {"S": ["g", "list", [["c", "str"]]], "T": ["c", "bytes"], "vals": [["s", "list", [["a", "str", "ab"]]]], "stream": "corpus"}),
-    ("D25b", {"S": ["g", "set", [["c", "int"]]], "T": ["g", "Sequence", [["c", "int"]]], "vals": [["s", "set", [["a", "int", 1], ["a", "int", 2]]]], "stream": "corpus"}),
-    ("D25c", {"S": ["g", "list", [["g", "list", [["c", "int"]]]]], "T": ["c", "set"], "vals": [["s", "list", [["s", "list", [["a", "int", 1]]]]]], "stream": "corpus"}),
-    ("D25d", {"S": ["g", "dict", [["c", "str"], ["c", "int"]]], "T": ["u", [["g", "Collection", [["c", "str"]]], ["g", "dict", [["c", "str"], ["c", "int"]]]]],
-              "vals": [["m", "dict", [["a", "str", "a"]], [["a", "int", 1]]]], "stream": "corpus"}),
-    ("D25b", {"S": ["c", "str"], "T": ["c", "PathLike"], "vals": [["a", "str", "a/b"]], "stream": "corpus"}),
-    ("D25b", {"S": ["g", "set", [["c", "int"]]], "T": ["g", "set", [["c", "MultiInputObj"]]], "vals": [["s", "set", [["a", "int", 1]]]], "stream": "corpus"}),
-    ("D13", {"S": ["g", "SetABC", [["u", [["g", "set", [["c", "bool"]]], ["c", "str"]]]]], "T": ["g", "SetABC", [["u", [["g", "set", [["c", "bool"]]], ["c", "str"]]]]],
-             "vals": [["s", "set", [["a", "str", ""]]]], "stream": "corpus"}),
-]  # fmt: skip
-# accepted pairs that must keep working at run time, and near misses that must stay rejected statically
-CORPUS = [
-    {"S": ["g", "list", [["c", "int"]]], "T": ["g", "Sequence", [["c", "float"]]], "stream": "corpus"},
-    {"S": ["tv", ["c", "int"]], "T": ["g", "list", [["c", "int"]]], "stream": "corpus"},
-    {"S": ["g", "list", [["c", "int"]]], "T": ["g", "tuple", [["c", "int"], ["c", "int"]]], "stream": "corpus"},
-    {"S": ["g", "dict", [["c", "str"], ["c", "int"]]], "T": ["g", "Mapping", [["c", "str"], ["c", "float"]]], "stream": "corpus"},
-    {"S": ["c", "int"], "T": ["g", "MultiInputObj", [["c", "int"]]], "stream": "corpus"},
-    {"S": ["c", "int"], "T": ["c", "MultiInputObj"], "stream": "corpus"},
-    {"S": ["c", "Path"], "T": ["c", "str"], "stream": "corpus"},
-    {"S": ["g", "list", [["c", "str"]]], "T": ["c", "str"], "stream": "corpus"},
-    {"S": ["c", "str"], "T": ["g", "list", [["c", "str"]]], "stream": "corpus"},
-    {"S": ["g", "list", [["any"]]], "T": ["g", "list", [["c", "int"]]], "stream": "corpus"},
-    {"S": ["u", [["c", "int"], ["c", "NoneType"]]], "T": ["c", "int"], "stream": "corpus"},
-    {"S": ["c", "int"], "T": ["u", [["c", "int"], ["c", "NoneType"]]], "stream": "corpus"},
-]
+def _load_corpus():
+    """corpus/typing/c21.jsonl: witnesses of the known findings (finding != null) and regression cases
+    (near misses that must stay rejected / accepted connections that must keep working)."""
+    wit, reg = [], []
+    for line in (core.VERIF / "corpus" / "typing" / "c21.jsonl").read_text().splitlines():
+        if line.strip():
+            rec = json.loads(line)
+            (wit.append((rec["finding"], rec["case"])) if rec["finding"] else reg.append(rec["case"]))
+    return wit, reg
+
+
+WITNESSES, CORPUS = _load_corpus()
 
 
 def correspondence(ctx):
